@@ -84,12 +84,16 @@ func (p *RunnableProcessor) Process(ctx context.Context, records []opencdc.Recor
 		passthroughRecordIndexes := make([]int, 0, len(records))
 
 		var err error
+		// errIndex is the index of the record whose condition failed to
+		// evaluate (-1 if none); records after it are not looked at.
+		errIndex := -1
 
 		for i, rec := range records {
 			var keep bool
 			keep, err = p.cond.Evaluate(rec)
 			if err != nil {
 				err = cerrors.Errorf("failed evaluating condition: %w", err)
+				errIndex = i
 				break
 			}
 
@@ -100,41 +104,46 @@ func (p *RunnableProcessor) Process(ctx context.Context, records []opencdc.Recor
 			}
 		}
 
+		var procRecs []sdk.ProcessedRecord
 		if len(keptRecords) > 0 {
-			outRecs = p.proc.Process(ctx, keptRecords)
-			if len(outRecs) > len(keptRecords) {
+			procRecs = p.proc.Process(ctx, keptRecords)
+			if len(procRecs) > len(keptRecords) {
 				return []sdk.ProcessedRecord{
 					sdk.ErrorRecord{Error: cerrors.New("processor returned more records than input")},
 				}
 			}
 		}
-		if err != nil {
-			outRecs = append(outRecs, sdk.ErrorRecord{Error: err})
-		}
 
-		// Add passthrough records back into the resultset and keep the
-		// original order of the records.
+		// Merge the processor's results with the passthrough records, keeping
+		// every result in the slot of the record it belongs to. The processor
+		// may return fewer results than it was given (the rest is retried by
+		// the caller): the merged output then ends at the first record without
+		// a result, it must never index past what the processor returned.
 		if len(passthroughRecordIndexes) == len(records) {
 			// Optimization for the case where no records are kept
 			outRecs = make([]sdk.ProcessedRecord, len(records))
 			for i, rec := range records {
 				outRecs[i] = sdk.SingleRecord(rec)
 			}
-		} else if len(passthroughRecordIndexes) > 0 {
-			tmp := make([]sdk.ProcessedRecord, len(outRecs)+len(passthroughRecordIndexes))
-			prevIndex := -1
-			for i, index := range passthroughRecordIndexes {
-				// TODO index-i can be out of bounds if the processor returns
-				//  fewer records than the input.
-				copy(tmp[prevIndex+1:index], outRecs[prevIndex-i+1:index-i])
-				tmp[index] = sdk.SingleRecord(records[index])
-				prevIndex = index
+		} else {
+			outRecs = make([]sdk.ProcessedRecord, 0, len(records))
+			nextProc, nextPass := 0, 0
+			for i := range records {
+				if nextPass < len(passthroughRecordIndexes) && passthroughRecordIndexes[nextPass] == i {
+					outRecs = append(outRecs, sdk.SingleRecord(records[i]))
+					nextPass++
+					continue
+				}
+				if i == errIndex {
+					outRecs = append(outRecs, sdk.ErrorRecord{Error: err})
+					break
+				}
+				if nextProc >= len(procRecs) {
+					break // no result for this record (short output)
+				}
+				outRecs = append(outRecs, procRecs[nextProc])
+				nextProc++
 			}
-			// if the last index is not the last record, copy the rest
-			if passthroughRecordIndexes[len(passthroughRecordIndexes)-1] != len(tmp)-1 {
-				copy(tmp[prevIndex+1:], outRecs[prevIndex-len(passthroughRecordIndexes)+1:])
-			}
-			outRecs = tmp
 		}
 	}
 
